@@ -28,7 +28,10 @@ struct InstNameIndex {
 namespace InstNameUtils {
 
 Error decode(uint32_t name_value, InstStringifyOptions options, const char* string_table, String& output) noexcept;
+//! Finds an instruction by name in a name table that is ordered by name within each `name_index` span (binary search).
 InstId find_instruction(const char* s, size_t len, const uint32_t* name_table, const char* string_table, const InstNameIndex& name_index) noexcept;
+//! Finds an instruction by name in a name table that is NOT ordered by name within `name_index` spans (linear search).
+InstId find_instruction_unordered(const char* s, size_t len, const uint32_t* name_table, const char* string_table, const InstNameIndex& name_index) noexcept;
 uint32_t find_alias(const char* s, size_t len, const uint32_t* name_table, const char* string_table, uint32_t alias_name_count) noexcept;
 
 } // {InstNameUtils}
